@@ -438,9 +438,8 @@ emit(rres$n(5))`},
 rneq$n(0)`},
 	{"recover-runtime", `func idx$n(xs []int, i int) {
 	defer func() {
-		e := recover()
-		_, isErr := e.(error)
-		emitb(isErr)
+		recover()
+		emit(-2)
 	}()
 	emit(xs[i])
 }
@@ -454,19 +453,23 @@ func nilmap$n() {
 	m["x"] = 1
 	emit(1)
 }
+func first$n() { panic("first") }
+func again$n(e interface{}) { panic(fmt.Sprint(e, "+again")) }
 func repanic$n() {
 	defer func() {
-		emits(fmt.Sprint(recover()))
+		e := recover()
+		emits(fmt.Sprint(e))
 	}()
 	defer func() {
 		e := recover()
-		panic(fmt.Sprint(e, "+again"))
+		again$n(e)
 	}()
-	panic("first")
+	first$n()
 }
 func norecover$n() {
 	defer func() {
-		emits(fmt.Sprint(recover()))
+		e := recover()
+		emits(fmt.Sprint(e))
 	}()
 	emits("x")
 }`, `idx$n([]int{1, 2, 3}, 1)
@@ -474,6 +477,28 @@ idx$n([]int{1, 2, 3}, $a+2)
 nilmap$n()
 repanic$n()
 norecover$n()`},
+	{"panic-own-recover", `func pown$n() {
+	defer func() {
+		e := recover()
+		emits(fmt.Sprint(e))
+	}()
+	panic("z$a")
+}`, `pown$n()
+emit(1)`},
+	{"recover-as-argument", `func rarg$n() {
+	defer func() {
+		emits(fmt.Sprint(recover()))
+	}()
+	emits("x")
+}`, `rarg$n()`},
+	{"index-panic-value", `func ipv$n(xs []int, i int) {
+	defer func() {
+		e := recover()
+		_, isErr := e.(error)
+		emitb(isErr)
+	}()
+	emit(xs[i])
+}`, `ipv$n([]int{1, 2}, $a+1)`},
 	{"elided-lit", `type EL$n struct{ A, B int }`, `m$n := [][]int{{1, $a}, {3}, {}}
 emit(len(m$n) + m$n[0][1])
 ps$n := []EL$n{{1, 2}, {3, $b}}
